@@ -4,7 +4,6 @@ import (
 	"bytes"
 	"errors"
 	"fmt"
-	"math"
 
 	"github.com/Eyevinn/mp4ff/bits"
 )
@@ -153,6 +152,7 @@ func ParseSliceHeader(nalu []byte, spsMap map[uint32]*SPS, ppsMap map[uint32]*PP
 	if !ok {
 		return nil, fmt.Errorf("sps ID %d unknown", spsID)
 	}
+	sh.SeqParamID = spsID
 	if sps.Log2MaxFrameNumMinus4 > 12 || sps.Log2MaxPicOrderCntLsbMinus4 > 12 {
 		// Range 0..12 according to ISO/IEC 14496-10 Section 7.4.2.1.1. Larger values give absurd or negative bit counts.
 		return nil, fmt.Errorf("sps log2_max_frame_num_minus4 %d or log2_max_pic_order_cnt_lsb_minus4 %d > 12",
@@ -360,12 +360,19 @@ func ParseSliceHeader(nalu []byte, spsMap map[uint32]*SPS, ppsMap map[uint32]*PP
 	if pps.NumSliceGroupsMinus1 > 0 &&
 		pps.SliceGroupMapType >= 3 &&
 		pps.SliceGroupMapType <= 5 {
-		picSizeInMapUnits := pps.PicSizeInMapUnitsMinus1 + 1
+		// PicSizeInMapUnits = PicWidthInMbs * PicHeightInMapUnits comes from the SPS (Section 7.4.2.1.1)
+		picSizeInMapUnits := sps.picSizeInMapUnits()
 		sliceGroupChangeRate := pps.SliceGroupChangeRateMinus1 + 1
 		if sliceGroupChangeRate == 0 {
 			return nil, fmt.Errorf("pps slice_group_change_rate_minus1 %d out of range", pps.SliceGroupChangeRateMinus1)
 		}
-		nrBits := int(math.Ceil(math.Log2(float64(picSizeInMapUnits/sliceGroupChangeRate + 1))))
+		// Ceil(Log2(PicSizeInMapUnits ÷ SliceGroupChangeRate + 1)) bits with exact division (Section 7.4.3).
+		// The smallest n with 2^n >= x/y + 1 is the smallest n with 2^n >= Ceil(x/y) + 1.
+		nrChangeCycles := picSizeInMapUnits / sliceGroupChangeRate
+		if picSizeInMapUnits%sliceGroupChangeRate != 0 {
+			nrChangeCycles++
+		}
+		nrBits := bits.CeilLog2(nrChangeCycles + 1)
 		sh.SliceGroupChangeCycle = uint32(r.Read(nrBits))
 	}
 
